@@ -85,10 +85,10 @@ Section BasicThms.
 Variable lower : list N -> list N.
 Variable login_ok : list N -> bool.
 Variable pw_ok : list N -> bool.
-Variable verify : list N -> list N -> bool.
+Variable cmp : list N -> list N -> bcres.
 
-Notation bstep := (bstep lower login_ok pw_ok verify).
-Notation brun := (brun lower login_ok pw_ok verify).
+Notation bstep := (bstep lower login_ok pw_ok cmp).
+Notation brun := (brun lower login_ok pw_ok cmp).
 Notation parse_secret := (parse_secret lower).
 
 Lemma bget_in k st r : bget k st = Some r -> In (k, r) st.
@@ -112,7 +112,7 @@ Lemma basic_auth_sound st secret st' uid lvl :
   bstep st (BAuth secret) = (st', BAuthOk uid lvl) ->
   exists u p r, split_colon secret = Some (u, p) /\
     bget (lower u) (bs_store st) = Some r /\
-    verify (br_hash r) p = true /\
+    cmp (br_hash r) p = BcMatch /\
     uid = br_uid r /\ lvl = br_level r /\ uid <> 0 /\
     (match br_expires r with Some e => (bs_now st <= e)%Z | None => True end) /\
     st' = st.
@@ -123,7 +123,7 @@ Proof.
   destruct (br_uid r =? 0) eqn:E0; [intros [= _ H]; discriminate|].
   destruct (match br_expires r with Some e => (e <? bs_now st)%Z | None => false end) eqn:E1;
     [intros [= _ H]; discriminate|].
-  destruct (verify (br_hash r) p) eqn:E2; cbn [negb]; [|intros [= _ H]; discriminate].
+  cbv zeta. destruct (cmp (br_hash r) p) eqn:E2; cbn [negb bc_is_nil]; try (intros [= _ H]; discriminate).
   intros [= <- <- <-]. exists u, p, r. repeat split; try assumption; try reflexivity.
   - lia.
   - destruct (br_expires r); [lia|exact I].
@@ -136,13 +136,83 @@ Proof. intros S G. cbn [bstep]. unfold Basic.parse_secret. now rewrite S, G. Qed
 
 Lemma basic_wrong_password_never st secret u p r :
   split_colon secret = Some (u, p) -> bget (lower u) (bs_store st) = Some r ->
-  verify (br_hash r) p = false ->
+  cmp (br_hash r) p <> BcMatch ->
   exists e, bstep st (BAuth secret) = (st, BErr e).
 Proof.
   intros S G V. cbn [bstep]. unfold Basic.parse_secret. rewrite S, G.
   destruct (br_uid r =? 0); [eexists; reflexivity|].
   destruct (match br_expires r with Some e => (e <? bs_now st)%Z | None => false end); [eexists; reflexivity|].
-  rewrite V. cbn [negb]. eexists; reflexivity.
+  cbv zeta. destruct (cmp (br_hash r) p); [congruence| |]; cbn [negb bc_is_nil]; eexists; reflexivity.
+Qed.
+
+(* for EVERY stored record (any bytes) and every password: success only on the oracle's "match" *)
+Lemma basic_authenticates_only_on_match st secret u p r st' uid lvl :
+  split_colon secret = Some (u, p) -> bget (lower u) (bs_store st) = Some r ->
+  bstep st (BAuth secret) = (st', BAuthOk uid lvl) ->
+  cmp (br_hash r) p = BcMatch.
+Proof.
+  intros S G H. destruct (basic_auth_sound _ _ _ _ _ H) as (u' & p' & r' & S' & G' & M & _).
+  rewrite S in S'. injection S' as <- <-. rewrite G in G'. injection G' as <-. exact M.
+Qed.
+
+(* ... in particular never on an oracle error, whatever the error and the password *)
+Lemma basic_never_on_oracle_error st secret u p r e :
+  split_colon secret = Some (u, p) -> bget (lower u) (bs_store st) = Some r ->
+  cmp (br_hash r) p = BcError e ->
+  exists e', bstep st (BAuth secret) = (st, BErr e').
+Proof.
+  intros S G V. apply (basic_wrong_password_never st secret u p r S G). rewrite V. discriminate.
+Qed.
+
+(* stored bytes that newFromHash rejects never authenticate, with ANY password: premise = the oracle
+   returns the error of its header check (CompareHashAndPassword starts with newFromHash) *)
+Lemma basic_malformed_hash_never st secret u p r e :
+  (forall h q e0, bc_header h = Some e0 -> cmp h q = BcError e0) ->
+  split_colon secret = Some (u, p) -> bget (lower u) (bs_store st) = Some r ->
+  bc_header (br_hash r) = Some e ->
+  exists e', bstep st (BAuth secret) = (st, BErr e').
+Proof.
+  intros O S G Hh. exact (basic_never_on_oracle_error st secret u p r e S G (O _ _ _ Hh)).
+Qed.
+
+(* the store anomaly puts ANY bytes under an existing login *)
+Lemma bset_hash_get uid hash st k r :
+  bget k st = Some r -> br_uid r = uid ->
+  bget k (bset_hash uid hash st) = Some (mkBR (br_uid r) (br_level r) hash (br_expires r)).
+Proof.
+  induction st as [|[k' r'] t IH]; cbn [bget bset_hash]; [discriminate|].
+  destruct (bytes_eqb k k'); [|exact IH].
+  intros [= ->] U. rewrite U, N.eqb_refl. now rewrite <- U.
+Qed.
+
+Lemma basic_raw_then_auth st uid hash secret u p r :
+  split_colon secret = Some (u, p) -> bget (lower u) (bs_store st) = Some r -> br_uid r = uid ->
+  exists st1, bstep st (BRaw uid hash) = (st1, BRawOk) /\
+    bget (lower u) (bs_store st1) = Some (mkBR (br_uid r) (br_level r) hash (br_expires r)) /\
+    (cmp hash p <> BcMatch -> exists e', bstep st1 (BAuth secret) = (st1, BErr e')).
+Proof.
+  intros S G U.
+  assert (F : bfind_uid uid (bs_store st) <> None).
+  { clear S. revert G. induction (bs_store st) as [|[k' r'] t IH]; cbn [bget bfind_uid]; [discriminate|].
+    destruct (bytes_eqb (lower u) k').
+    - intros [= ->]. rewrite U, N.eqb_refl. discriminate.
+    - intros G. destruct (br_uid r' =? uid); [discriminate|auto]. }
+  exists (mkBS (bset_hash uid hash (bs_store st)) (bs_now st)).
+  pose proof (bset_hash_get uid hash _ _ _ G U) as G1.
+  split; [|split].
+  - cbn [bstep]. destruct (bfind_uid uid (bs_store st)) as [x|]; [reflexivity|congruence].
+  - exact G1.
+  - intros V. eapply basic_wrong_password_never; [exact S|cbn [bs_store]; exact G1|exact V].
+Qed.
+
+Lemma bc_header_no_panic h : bc_header h <> Some BcIndexPanic.
+Proof.
+  unfold bc_header. destruct (N.of_nat (length h) <? 59) eqn:L; [discriminate|].
+  destruct h as [|b0 [|b1 [|b2 [|b3 [|b4 [|b5 t]]]]]]; try (vm_compute in L; discriminate).
+  destruct (negb (b0 =? 36)); [discriminate|]. destruct (50 <? b1); [discriminate|].
+  destruct (negb (b2 =? 36)); cbn [tl].
+  - destruct (bc_atoi2 b4 b5); [destruct (_ || _)|]; discriminate.
+  - destruct (bc_atoi2 b3 b4); [destruct (_ || _)|]; discriminate.
 Qed.
 
 (* ---- unique logins ---- *)
@@ -204,9 +274,17 @@ Qed.
 
 Ltac same := cbn [fst]; unfold binv; tauto.
 
+Lemma bset_hash_keys uid hash st : map fst (bset_hash uid hash st) = map fst st.
+Proof. induction st as [|[k r] t IH]; cbn [bset_hash map fst]; [reflexivity|]. now rewrite IH. Qed.
+Lemma bset_hash_uids uid hash st : map uidf (bset_hash uid hash st) = map uidf st.
+Proof.
+  induction st as [|[k r] t IH]; cbn [bset_hash map]; [reflexivity|]. rewrite IH. f_equal.
+  unfold uidf. cbn [snd]. now destruct (br_uid r =? uid).
+Qed.
+
 Lemma bstep_inv st op : binv (bs_store st) -> binv (bs_store (fst (bstep st op))).
 Proof.
-  intros (K & U & F). destruct op as [uid level secret hash lt|secret|uid secret hash lt|d]; cbn [bstep].
+  intros (K & U & F). destruct op as [uid level secret hash lt|secret|uid secret hash lt|d|uid hash]; cbn [bstep].
   - destruct (parse_secret secret) as [[uname pw]|] eqn:P; [|same].
     destruct (negb (login_ok uname)); [same|]. destruct (negb (pw_ok pw)); [same|].
     destruct (bget uname (bs_store st)) eqn:G; [same|].
@@ -218,7 +296,7 @@ Proof.
   - destruct (parse_secret secret) as [[uname pw]|]; [|same].
     destruct (bget uname (bs_store st)) as [r|]; [|same].
     destruct (br_uid r =? 0); [same|]. destruct (match br_expires r with Some _ => _ | None => _ end); [same|].
-    destruct (negb _); same.
+    cbv zeta. destruct (negb _); same.
   - destruct (parse_secret secret) as [[uname pw]|] eqn:P; [|same].
     destruct (bfind_uid uid (bs_store st)) as [[login r]|] eqn:B; [|same].
     apply bfind_uid_in in B. destruct B as [Bin Buid].
@@ -250,6 +328,10 @@ Proof.
         -- cbn [fst]. eapply parse_lower; exact P.
         -- rewrite Forall_forall in *. intros p Hp. apply bdel_uid_in in Hp. apply F. tauto.
   - cbn [fst bs_store]. unfold binv. tauto.
+  - destruct (bfind_uid uid (bs_store st)); [|same].
+    cbn [fst bs_store]. unfold binv. rewrite bset_hash_keys, bset_hash_uids. repeat split; [exact K|exact U|].
+    rewrite Forall_forall in *. intros q Hq. apply (in_map fst) in Hq. rewrite bset_hash_keys in Hq.
+    apply in_map_iff in Hq. destruct Hq as (q' & E & Hq'). rewrite <- E. exact (F _ Hq').
 Qed.
 
 Lemma brun_inv ops : forall st, binv (bs_store st) -> binv (bs_store (fst (brun st ops))).
